@@ -24,3 +24,10 @@ Proof. intros [|] [|]; reflexivity. Qed.
 
 Lemma bridge_size : gen_size_from_batch_file = true /\ gen_leftover_is_error = true.
 Proof. split; reflexivity. Qed.
+
+(* both reap entry points hand the Reaper the saved batch count, the caller's wait flag, the placeholder and
+   the caller's allow_incomplete (so that a bool / str crop, whose placeholder is None, is still reaped
+   partially when asked to) *)
+Lemma bridge_reaper_calls :
+  gen_reaper_call_raw = (true, true, true, true) /\ gen_reaper_call_to_ds = (true, true, true, true).
+Proof. split; reflexivity. Qed.
